@@ -348,6 +348,42 @@ pub fn run_c14_raw_forms(cfg: &Cfg) -> Report {
                 cmp(cx, "rqsc::MemoryAffinityStructureResource", o.as_bytes(), &o, format!("{:#x},{:#x}", b, a));
                 cx.rep.distinct(&("rqsc64", a, b));
             }
+            6 => {
+                // RSDP with caller-assigned pub fields (revision, length, checksums, oem id, XSDT address)
+                let mut p = acpi_tables::rsdp::Rsdp::new(r.bytes(), r.u64b());
+                let mut d = String::new();
+                for _ in 0..r.below(4) {
+                    match r.below(6) {
+                        0 => {
+                            p.revision = *r.pick(&[0u8, 1, 2, 3, 255]);
+                            d.push_str(&format!("revision={} ", p.revision));
+                        }
+                        1 => {
+                            p.length = r.u32b().into();
+                            d.push_str("length ");
+                        }
+                        2 => {
+                            p.checksum = r.u8b();
+                            d.push_str("checksum ");
+                        }
+                        3 => {
+                            p.extended_checksum = r.u8b();
+                            d.push_str("extended_checksum ");
+                        }
+                        4 => {
+                            p.oem_id = r.bytes();
+                            d.push_str("oem_id ");
+                        }
+                        _ => {
+                            p.xsdt_addr = r.u64b().into();
+                            d.push_str("xsdt_addr ");
+                        }
+                    }
+                }
+                if cmp(cx, "rsdp::Rsdp", p.as_bytes(), &p, d.clone()) {
+                    cx.rep.distinct(&(d, p.as_bytes().to_vec()));
+                }
+            }
             _ => {
                 let mut f = FACS::new();
                 let mut d = String::new();
@@ -430,6 +466,13 @@ pub fn run_c15(cfg: &Cfg) -> Report {
                 t
             })
             .collect();
+        // occasionally an element that serialises to nothing at all
+        let mut elems = elems;
+        if cx.idx % 9 == 0 && elems.len() < 250 {
+            let at = r.usize_below(elems.len() + 1);
+            elems.insert(at, Term::Empty);
+            cx.rep.cov("list_with_zero_byte_element");
+        }
         cx.eval();
         cx.obs();
         let path = gen_path(&mut r);
